@@ -248,6 +248,8 @@ def compare(res, cap, mode, text, orig, relayout, toks, g, lname, extra=None):
     new = outcome(relayout)
     res.count('parses')
     res.count('evaluations')
+    if orig[0] == 'ok':
+        res.count('nontrivial')
     res.states.add(th(relayout))
     if same(orig, new):
         res.outcome('same:' + orig[0])
@@ -466,6 +468,8 @@ def work_global(unit, res, cap):
         verify(tt, rl)
         res.count('insertions', cnt)
         res.count('global_transformations')
+        if orig[0] == 'ok':
+            res.count('nontrivial')
         if len(res.samples) < 1 and len(text) < 1500 and name.startswith('rot'):
             res.samples.append({'mode': 'global', 'source': label, 'transform': name, 'relayout': rl[:400]})
         new = outcome(rl)
@@ -584,6 +588,7 @@ def work_cstring(unit, res, cap):
             res.count('parses')
             res.count('evaluations')
             res.count('cstring_cases')
+            res.count('nontrivial')
             res.states.add(th(tv))
             if same(expected, new):
                 res.outcome('same:ok')
@@ -717,6 +722,7 @@ def work_errors(unit, res, cap):
                 res.count('parses')
                 res.count('evaluations')
                 res.count('error_cases')
+                res.count('nontrivial')
                 res.states.add(th(rl))
                 exp_offs = [e + shift] + ([e + shift + ambiguous] if ambiguous else [])
                 fields = dict(mode='errors', text=B, relayout=rl, letter=lname, error_offset=e,
@@ -793,6 +799,7 @@ def work_enumline(unit, res, cap):
         res.count('parses')
         res.count('evaluations')
         res.count('enumline_cases')
+        res.count('nontrivial')
         res.states.add(th(rl))
         at = lexer.tokens(rl)[anchor]
         fields = dict(mode='enumline', text=text, relayout=rl, letter=lname, gap=g, size=len(text),
@@ -1022,16 +1029,17 @@ def attribute(failures):
 def coverage(stats, tier):
     ev = stats.get('evaluations', 0)
     return {
-        'states': stats.get('texts', 0) + stats.get('broken_texts', 0) + ev,
+        'texts_given_to_parser': stats.get('parses', 0),
         'transitions': stats.get('insertions', 0) + stats.get('comment_edits', 0) + stats.get('broken_texts', 0)
         + stats.get('cstring_cases', 0),
         'traces_validated_against_impl': ev,
         'evaluations': ev,
-        'distinct_nontrivial': ev - stats.get('failures_total', 0),
-        'rule': 'states = texts given to parse_string (originals, broken texts, relayouts; the runner reports the '
-                'number of distinct ones by hash); transitions = layout letters inserted + comment edits + token edits + '
+        'distinct_nontrivial': stats.get('nontrivial', 0),
+        'rule': 'states = distinct texts given to parse_string (originals, broken texts, relayouts), counted by hash; '
+                'transitions = layout letters inserted + comment edits + token edits + '
                 'literal substitutions; a trace is validated when the relayout passed the lexer model '
-                '(same token sequence) and its parse (or error position) was compared with that of the original',
+                '(same token sequence) and its parse (or error position) was compared with that of the original; '
+                'non-trivial = the original was accepted (or, for erroneous texts, carried a position)',
         'exhaustive': True,
     }
 
